@@ -222,7 +222,7 @@ theorem leaf_conf (o : Opts) (hs : o.safe = true) (t : Target) (hc : Clean D (n 
   split at h
   · simp at h
   · rename_i hna
-    refine C01_transform_isinstance P hP D.enums o.flags o.unresolved (safe_parts hs).2.2.2.2 t hk (by simpa using he) ?_ v r h
+    refine transform_isinstance P hP D.enums o.flags o.unresolved (safe_parts hs).2.2.2.2 t hk (by simpa using he) ?_ v r h
     intro a hta
     exact hna a hta
 
@@ -603,5 +603,161 @@ theorem C01_neg (P : Prims) (PP : Utv.Py.Prims) (D : DEnv) (fuel : Nat) (o : Opt
   split at h
   · simp at h
   · simp [negLoop, hy] at h
+
+/-! ## one lemma per converter: whatever `to_x` returns is an instance of the class it was asked for
+
+(proofs in Lemmas/C01Conv.lean; every "returns its argument" branch — `isinstance(data, t)`, exact type, a member of the
+class — is justified there by the test that guards it) -/
+
+theorem C01_to_null_isinstance (f : Flags) (v r : V) (h : toNull f v = .ok r) : isInstT r (.cls .noneType 0) = true :=
+  conv_to_null_isinstance f v r h
+theorem C01_to_bool_isinstance (P : Prims) (f : Flags) (v r : V) (h : Conv.toBool P f v = .ok r) :
+    isInstT r (.cls .bool 0) = true := conv_to_bool_isinstance P f v r h
+theorem C01_to_str_isinstance (P : Prims) (E : Env) (f : Flags) (c : Nat) (v r : V) (h : toStr P E f c v = .ok r) :
+    isInstT r (.cls .str c) = true := conv_to_str_isinstance P E f c v r h
+theorem C01_to_bytes_isinstance (P : Prims) (E : Env) (f : Flags) (b : BytesK) (c : Nat) (v r : V)
+    (h : toBytes P E f b c v = .ok r) : isInstT r (.cls b.base c) = true := conv_to_bytes_isinstance P E f b c v r h
+theorem C01_to_array_isinstance (P : Prims) (f : Flags) (b : SeqK) (c : Nat) (v r : V) (h : toArray P f b c v = .ok r) :
+    isInstT r (.cls b.base c) = true := conv_to_array_isinstance P f b c v r h
+theorem C01_to_dict_isinstance (P : Prims) (E : Env) (f : Flags) (c : Nat) (v r : V) (h : toDict P E f c v = .ok r) :
+    isInstT r (.cls .dict c) = true := conv_to_dict_isinstance P E f c v r h
+theorem C01_to_float_isinstance (P : Prims) (E : Env) (f : Flags) (c : Nat) (v r : V) (h : toFloat P E f c v = .ok r) :
+    isInstT r (.cls .float c) = true := conv_to_float_isinstance P E f c v r h
+/-- for `int` itself; for a user subclass the boolean words give a plain `int` (`C01_subclass_plain_witness`) -/
+theorem C01_to_integer_isinstance (P : Prims) (E : Env) (f : Flags) (v r : V) (h : toInteger P E f 0 v = .ok r) :
+    isInstT r (.cls .int 0) = true := conv_to_integer_isinstance P E f v r h
+theorem C01_to_decimal_isinstance (P : Prims) (E : Env) (f : Flags) (c : Nat) (v r : V)
+    (h : toDecimal P E f c v = .ok r) : isInstT r (.cls .decimal c) = true := conv_to_decimal_isinstance P E f c v r h
+theorem C01_to_complex_isinstance (P : Prims) (hP : PrimsTyped P) (E : Env) (f : Flags) (v r : V)
+    (h : toComplex P E f 0 v = .ok r) : isInstT r (.cls .complex 0) = true := conv_to_complex_isinstance P hP E f v r h
+theorem C01_to_date_isinstance (P : Prims) (E : Env) (f : Flags) (v r : V) (h : toDate P E f v = .ok r) :
+    isInstT r (.cls .date 0) = true := conv_to_date_isinstance P E f v r h
+theorem C01_to_datetime_isinstance (P : Prims) (hP : PrimsTyped P) (E : Env) (f : Flags) (c : Nat) (df : Bool) (v r : V)
+    (h : toDatetime P E f c df v = .ok r) : isInstT r (.cls .datetime c) = true :=
+  conv_to_datetime_isinstance P hP E f c df v r h
+/-- for `time` itself (subclasses: known finding subclass-result-plain) -/
+theorem C01_to_time_isinstance (P : Prims) (hP : PrimsTyped P) (E : Env) (f : Flags) (v r : V)
+    (h : toTime P E f 0 v = .ok r) : isInstT r (.cls .time 0) = true := conv_to_time_isinstance P hP E f v r h
+/-- for `timedelta` itself (subclasses: known finding subclass-result-plain) -/
+theorem C01_to_timedelta_isinstance (P : Prims) (hP : PrimsTyped P) (E : Env) (f : Flags) (v r : V)
+    (h : toTimedelta P E f 0 v = .ok r) : isInstT r (.cls .timedelta 0) = true :=
+  conv_to_timedelta_isinstance P hP E f v r h
+theorem C01_to_uuid_isinstance (P : Prims) (f : Flags) (c : Nat) (v r : V) (h : toUuid P f c v = .ok r) :
+    isInstT r (.cls .uuid c) = true := conv_to_uuid_isinstance P f c v r h
+theorem C01_to_enum_isinstance (P : Prims) (E : Env) (f : Flags) (k : Nat) (v r : V) (h : toEnum P E f k v = .ok r) :
+    isInstT r (.enum k) = true := conv_to_enum_isinstance P E f k v r h
+
+/-- `TypeTransformer.__call__` on any class that exists and is not in the known-defect class: exact-type shortcut,
+registry resolution, converter, `handle_unresolved` ('throw' / 'init') all hand back an instance of the class -/
+theorem C01_transform_isinstance (P : Prims) (hP : PrimsTyped P) (E : Env) (f : Flags) (u : Unresolved)
+    (hu : u ≠ .ignore) (t : Target) (hk : KnownDefect.subclassPlain t = false) (he : targetExists t = true)
+    (ha : ∀ a, t ≠ .abc a) (v r : V) (h : transformU P E f u t v = .ok r) : isInstT r t = true :=
+  transform_isinstance P hP E f u hu t hk he ha v r h
+
+/-! ## the validator phase in the documented sense (through the C02 theorems) -/
+
+/-- a result that satisfies `gt` really is greater than the bound -/
+theorem C01_sat_gt (PP : Utv.Py.Prims) (b : PyVal) (r : V) (h : Sat PP ("gt", b) r) :
+    ∃ pv, toPy r = some pv ∧ Utv.Py.gt pv b = .ok true := by
+  have h' : ∃ pv f, toPy r = some pv ∧ Utv.Rule.validatorOf "gt" = some f ∧ f PP pv b = .ok pv := by
+    simpa [Sat, isLaxName, laxNames] using h
+  obtain ⟨pv, f, hpv, hf, hfa⟩ := h'
+  simp only [Utv.Rule.validatorOf, Option.some.injEq] at hf
+  subst hf
+  exact ⟨pv, hpv, ((Utv.C02.C02_gt_iff PP pv b pv).mp hfa).1⟩
+
+theorem C01_sat_le (PP : Utv.Py.Prims) (b : PyVal) (r : V) (h : Sat PP ("le", b) r) :
+    ∃ pv, toPy r = some pv ∧ Utv.Py.le pv b = .ok true := by
+  have h' : ∃ pv f, toPy r = some pv ∧ Utv.Rule.validatorOf "le" = some f ∧ f PP pv b = .ok pv := by
+    simpa [Sat, isLaxName, laxNames] using h
+  obtain ⟨pv, f, hpv, hf, hfa⟩ := h'
+  simp only [Utv.Rule.validatorOf, Option.some.injEq] at hf
+  subst hf
+  exact ⟨pv, hpv, ((Utv.C02.C02_le_iff PP pv b pv).mp hfa).1⟩
+
+/-! ## witnesses: the full statement is false of the unchanged code; non-vacuity -/
+
+/-- builtins that know nothing -/
+def P0 : Prims :=
+  { decode := fun _ _ => .ok "", strOf := fun _ => .unmodelled "-", floatOfStr := fun _ => .perr .valueError,
+    floatOfInt := fun _ => .unmodelled "-", floatOfDec := fun _ => .unmodelled "-", decOfStr := fun _ => .unmodelled "-",
+    decOfFloatRepr := fun _ => .unmodelled "-", complexOf := fun _ => .unmodelled "-", complexOf2 := fun _ _ => .unmodelled "-",
+    timestampOf := fun _ => .unmodelled "-", totalSeconds := fun _ => .unmodelled "-", div1000 := fun _ => .unmodelled "-",
+    utcFromTs := fun _ => .unmodelled "-", strptime := fun _ _ => .perr .valueError, timeFromIso := fun _ => .perr .valueError,
+    uuidOfStr := fun _ => .perr .valueError, jsonLoads := fun _ _ => .perr .jsonDecode, literalEval := fun _ => .perr .valueError,
+    parseQs := fun _ => .unmodelled "-", durationMatch := fun _ _ => .ok none, timedeltaKw := fun _ _ => .unmodelled "-",
+    timedeltaSec := fun _ => .unmodelled "-", initObj := fun _ _ => .perr .typeError }
+
+def PP0 : Utv.Py.Prims :=
+  { floatRepr := fun _ => "", decStr := fun _ => "", floatToDec := fun _ => none, reFullmatch := fun _ _ => none,
+    floatRound := fun f _ => f }
+
+def D0 : DEnv := ⟨⟨[]⟩, []⟩
+
+/-- the hypothesis on the builtins is satisfiable -/
+theorem P0_typed : PrimsTyped P0 := by
+  constructor <;> intros <;> simp_all [P0]
+
+def intT : Ty := .plain (.cls .int 0)
+
+/-- known finding `lax-result-not-revalidated`: `class T(int, Rule): gt = 3; multiple_of = Lax(3)` — `T(4) == 3`,
+which violates the strict `gt = 3` -/
+def laxT : Ty := .rule (some intT) .none [] [("gt", .int 3), ("lax_multiple_of", .int 3)]
+
+theorem C01_lax_witness :
+    parse P0 PP0 D0 2 {} laxT (.int 0 4) = .ok (.int 0 3) ∧ ¬ Conforms PP0 D0 2 laxT (.int 0 3) ∧
+    KnownDefect.laxValidator [("gt", PyVal.int 3), ("lax_multiple_of", PyVal.int 3)] = true := by
+  refine ⟨by rfl, ?_, by rfl⟩
+  intro h
+  simp only [laxT, Conforms] at h
+  obtain ⟨_, h | ⟨_, hsat⟩⟩ := h
+  · simp [isNone] at h
+  · obtain ⟨pv, hpv, hgt⟩ := C01_sat_gt PP0 (.int 3) (.int 0 3) (hsat _ (by simp))
+    simp [toPy] at hpv
+    subst hpv
+    simp at hgt
+
+/-- known finding `const-returns-declared-value`: `class T(int, Rule): const = 1.0` — `T(1) == 1.0`, a float -/
+def constT : Ty := .rule (some intT) .none [] [("const", .float (.fin 1 0))]
+
+theorem C01_const_witness :
+    parse P0 PP0 D0 2 {} constT (.int 0 1) = .ok (.float 0 (.fin 1 0)) ∧ ¬ Conforms PP0 D0 2 constT (.float 0 (.fin 1 0)) ∧
+    KnownDefect.constNotOrigin (some intT) [("const", PyVal.float (.fin 1 0))] = true := by
+  refine ⟨by rfl, ?_, by rfl⟩
+  intro h
+  simp only [constT, Conforms, intT] at h
+  simp [isInstT, isInst, V.cls?, Base.sub] at h
+
+/-- known finding `subclass-result-plain`: `type_transform('true', SubInt)` is the plain int `1` -/
+theorem C01_subclass_plain_witness :
+    parse P0 PP0 D0 1 {} (.plain (.cls .int 1)) (.str 0 "true") = .ok (.int 0 1) ∧
+    ¬ Conforms PP0 D0 1 (.plain (.cls .int 1)) (.int 0 1) ∧ KnownDefect.subclassPlain (.cls .int 1) = true := by
+  refine ⟨by rfl, ?_, by rfl⟩
+  simp [Conforms, isInstT, V.cls?]
+
+/-- hence the statement without the `Clean` hypothesis does not hold -/
+theorem C01_full_statement_fails :
+    ¬ ∀ (P : Prims) (_ : PrimsTyped P) (PP : Utv.Py.Prims) (D : DEnv) (fuel : Nat) (o : Opts) (T : Ty) (v r : V),
+        o.safe = true → parse P PP D fuel o T v = .ok r → Conforms PP D fuel T r := by
+  intro H
+  exact C01_lax_witness.2.1 (H P0 P0_typed PP0 D0 2 {} laxT (.int 0 4) (.int 0 3) (by rfl) C01_lax_witness.1)
+
+/-- non-vacuity: a nested, constrained declaration in the clean region on which a parse succeeds with a real conversion
+(`List[PositiveInt]` with `max_length = 3`, a tuple holding a bool and an int: the tuple becomes a list, `True` becomes 1) -/
+def posInt : Ty := .rule (some intT) .none [] [("gt", .int 0)]
+def listT : Ty := .rule (some (.plain (.cls .list 0))) .seq [posInt] [("max_length", .int 3)]
+
+example : ∃ (r : V), ({} : Opts).safe = true ∧ Clean D0 3 listT = true ∧
+    parse P0 PP0 D0 3 {} listT (.seq .tuple 0 [.bool true, .int 0 5]) = .ok r ∧ r = .seq .list 0 [.int 0 1, .int 0 5] :=
+  ⟨_, by rfl, by decide, by rfl, rfl⟩
+
+/-- non-vacuity for data classes: `class S(Schema): a: int; b: Optional[str] = None` from `{'a': True}` -/
+def D1 : DEnv := ⟨⟨[]⟩, [{ fields := [{ name := "a", ty := intT, required := true },
+  { name := "b", ty := .union [.plain (.cls .str 0), .plain (.cls .noneType 0)], required := false, default := some .none }] }]⟩
+
+example : ∃ (r : V), Clean D1 3 (.data 0) = true ∧
+    schemaInit P0 PP0 D1 2 0 [(.str 0 "a", .bool true)] = .ok r ∧
+    r = .dict (dataTagBase + 0) [(.str 0 "a", .int 0 1), (.str 0 "b", .none)] :=
+  ⟨_, by decide, by rfl, rfl⟩
 
 end Utv.C01
